@@ -164,6 +164,17 @@ def step (s : St) (op : List String) (impl : String) : LineOut St :=
         let (s2, v) := monitorOp s1 (natItems (flatten image)) implD
         { state := s2, model := some out, monitor := v }
     | _, _ => { state := s, model := some "bad-op" }
+  -- `conc g n seed => total=<t> distinct=<d>`: g goroutines deliver the same n events concurrently through
+  -- NotifyMsg and MergeRemoteState on one real node; monitored only: nothing is delivered twice
+  | "conc" :: _, some _ =>
+    let kv := (impl.splitOn " ").filterMap fun t => match t.splitOn "=" with
+      | [k, v] => v.toNat?.map fun n => (k, n)
+      | _ => none
+    match alookup kv "total", alookup kv "distinct" with
+    | some t, some d =>
+      { state := s, model := none,
+        monitor := if t != d then some ("redelivered-concurrent", s!"{t - d} of {t} deliveries repeat an event already delivered (concurrent handling of the same event)") else none }
+    | _, _ => { state := s, model := some "total=… distinct=…" }
   | _, _ => { state := s, model := some "bad-op" }
 
 def checker : Checker := { σ := St, init := {}, step := step }
